@@ -43,6 +43,8 @@ structure Cfg where
   customize : Bool
   ssa : Bool
   fieldPaths : List String
+  /-- resources that customize rules may name -/
+  related : List ChildRes := []
   deriving Inhabited
 
 def Cfg.parentAPIVersion (c : Cfg) : String :=
